@@ -434,7 +434,7 @@ class Ctx:
             label = self.fresh_label(f"{name}'")
             if "." in name:
                 base, field = name.rsplit(".", 1)
-                obj = self.I.eval(ast.parse(base, mode="eval").body, Frame(fr.module, fr.func, True, fr.locals))
+                obj = self.I.eval(ast.parse(base, mode="eval").body, self._spec_frame(fr))
                 cur = obj.fields.get(field) if isinstance(obj, PObj) else None
             else:
                 obj, field = None, name
